@@ -548,6 +548,15 @@ func checkC01(c *core.Ctx) {
 		}
 		reqs = append(reqs, totReq{Hex: hex.EncodeToString([]byte(m))})
 	}
+	// structured tokens (every count 1..40 of repeated constructs, long tokens with multi-byte tails, wrong
+	// characters in escapes) alone and where the parsers do not expect them: the error message quotes the token
+	for _, t := range StructuredLexInputs() {
+		for _, in := range []string{t, "{ a " + t + " }", "type T " + t + " { f: Int }", "{ f(x: " + t + ") }"} {
+			if len(in) < 2500 {
+				reqs = append(reqs, totReq{Hex: hex.EncodeToString([]byte(in))})
+			}
+		}
+	}
 	nSmall := len(reqs)
 	// (c) size families
 	sizes := []int{1 << 10, 1 << 14}
